@@ -289,7 +289,7 @@ class TranslationError(Exception):
   """The module has a shape the translator does not know: the tie to the code is broken."""
 
 
-CONFIGURABLE = {l2.fa, l2.fb, l2.fc, l2.fd, l2.fe, l2.fg, l2.Ka, l2.Kb, l2.Kc, l2.Dc}
+CONFIGURABLE = {l2.fa, l2.fb, l2.fc, l2.fd, l2.fe, l2.fg, l2.fh, l2.Ka, l2.Kb, l2.Kc, l2.Dc}
 
 
 def translate_module(code, enc, intern, fixture="config_fixture"):
@@ -393,7 +393,7 @@ def correspondence_case(rng, res, intern, stream, idx):
   """Configurations inside the modelled core (Config / Partial, no tags, leaves that are atoms), default
   options: the emitted text is parsed back and handed to the model together with the input."""
   root, _ = l2.gen_dag(rng, rng.randint(1, 9), buildable_types=("Config", "Config", "Partial"), p_share=0.5,
-                       callables=[l2.fa, l2.fb, l2.fc, l2.fd, l2.fe, l2.fg, l2.Ka, l2.Kb, l2.Kc])
+                       callables=[l2.fa, l2.fb, l2.fc, l2.fd, l2.fe, l2.fg, l2.fh, l2.Ka, l2.Kb, l2.Kc])
   if not isinstance(root, config_lib.Buildable):
     root = fdl.Config(l2.fd, x=root)
   if has_namedtuple(root) or has_defaultdict(root):
